@@ -684,8 +684,18 @@ def congruence_lemmas(ip: Interp, shared, base_pc=()) -> List[Any]:
             s = mk_solver(800)
             rng = z3.And(0 <= K, K < ca.length)
             s.add(rng)
-            # valid under the function's precondition (part of every path condition)
+            # valid under the function's precondition (part of every path condition) and under the
+            # quantifier-free context in which the two abstractions were formed (the lemma is then
+            # stated conditionally on that context)
             s.add(*base_pc)
+            base_ids = {e.get_id() for e in base_pc}
+            ctx_h = []
+            seen_h = set()
+            for e in list(ca.pc) + list(cb.pc):
+                if e.get_id() not in base_ids and e.get_id() not in seen_h:
+                    seen_h.add(e.get_id())
+                    ctx_h.append(e)
+            s.add(*ctx_h)
             if ca.noraise is not None:
                 s.add(ca.noraise)
             if cb.noraise is not None:
@@ -702,11 +712,13 @@ def congruence_lemmas(ip: Interp, shared, base_pc=()) -> List[Any]:
             if r == z3.unsat:
                 if [x.get_id() for x in ca.ctx] != [x.get_id() for x in cb.ctx]:
                     continue
-                lemmas.append(ip.ccnt(ca) == ip.ccnt(cb))
+                hyp = z3.And(*ctx_h) if ctx_h else z3.BoolVal(True)
                 sep = z3.String('sep!c')
-                lemmas.append(z3.ForAll([sep], ip.cjoin(ca, sep) == ip.cjoin(cb, sep)))
-                lemmas.append(ip.csum(ca) == ip.csum(cb))
-                lemmas.append(ip.ctok(ca) == ip.ctok(cb))
+                lemmas.append(z3.Implies(hyp, z3.And(
+                    ip.ccnt(ca) == ip.ccnt(cb),
+                    z3.ForAll([sep], ip.cjoin(ca, sep) == ip.cjoin(cb, sep)),
+                    ip.csum(ca) == ip.csum(cb),
+                    ip.ctok(ca) == ip.ctok(cb))))
     return lemmas
 
 
